@@ -198,7 +198,9 @@ func checkC17(sc *SerCase, rec *evid.Rec) (vs []pbt.Violation) {
 	}
 	standalone("header-component", m.Header().ToBytes(), h)
 	standalone("body-items", m.Body().ToBytes(), bd)
-	standalone("trailer-component", m.Trailer().ToBytes(), tr)
+	if !(sc.Tpl.TrailerCS && sc.TrailerCSVal != "") { // the component on its own legitimately includes its own CheckSum item
+		standalone("trailer-component", m.Trailer().ToBytes(), tr)
+	}
 	// metamorphic step on the same object
 	what, err := applyMut(m, sc)
 	if err != nil {
